@@ -169,6 +169,13 @@ def impl_tfl_all(content, cons, offsets=None, order_seed=None):
     return rows
 
 
+def old_mtime(path, content):
+    """ file metadata is not content: a third of the files get a modification time in the year
+    2000 (older than any since date used), deterministically from the content """
+    if (len(content) + sum(content[:16])) % 3 == 0:
+        os.utime(path, (946684800, 946684800))
+
+
 def impl_apply(content, cons):
     """ apply_to_file on a freshly opened file: (return value, fd.tell()) """
     core.import_searchkit()
@@ -176,6 +183,7 @@ def impl_apply(content, cons):
     with tempfile.NamedTemporaryFile(prefix='vh-', delete=False) as f:
         f.write(content)
         path = f.name
+    old_mtime(path, content)
     try:
         with open(path, 'rb') as fd:
             try:
